@@ -36,7 +36,7 @@ CFG = {
                 "share (path, method); unpublished endpoints are omitted yet still served; the operation set does not "
                 "depend on registration order; what is documented at v is what lookup serves at v; the definitions gathered for a parameter schema "
                 "(ReferenceVisitor) are closed under references, contain the schema's own references and only reachable "
-                "names, and fail only on an undefined name; the top-level tag array is the strictly increasing (byte order) "
+                "names, and fail only on an undefined name; rendering of registrable templates as path strings is injective and the walk strictly sorted, so the paths map (replace-on-insert) holds exactly one slot per operation, none lost; the top-level tag array is the strictly increasing (byte order) "
                 "enumeration of the configured names and the tags of the endpoints served at v, hence independent of "
                 "registration order and of hash-container iteration order. Proved by mutual "
                 "induction over the trie (walk = routes) on top of the C01 refinement. Correspondence with the real "
